@@ -10,4 +10,5 @@ CONSTANTS
   Heights = {0}
   MaxCRound = 3
   Cutoff = 3
+  InstCap = 2
 INVARIANT NeverEarly
